@@ -281,19 +281,26 @@ theorem filterMap_ne_nil (line : List Str) :
   | nil => rfl
   | cons a t ih => by_cases ha : a = [] <;> simpa [ha] using ih
 
-theorem tokenize_lines_ok (env : DepEnv) (fuel : Nat) (ls : List Str) (hf : ls.length + 1 ≤ fuel) :
-    Tucan.molfile_v3000_reader._tokenize_lines env fuel ls = (do let s ← splice ls; pure (s.map tokens)) := by
+theorem slice_take_4 {α} (l : List α) : slice l none (some (4 : Int)) = l.take 4 := slice_take l 4
+theorem slice_drop_4 {α} (l : List α) : slice l (some (4 : Int)) none = l.drop 4 := slice_drop l 4
+
+/-- contract of `_tokenize_lines`: the first four lines (header block) are never spliced, only
+tokenized; continuation splicing applies from the fifth line on -/
+theorem tokenize_lines_ok (env : DepEnv) (fuel : Nat) (ls : List Str) (hf : (ls.drop 4).length + 1 ≤ fuel) :
+    Tucan.molfile_v3000_reader._tokenize_lines env fuel ls =
+      (do let s ← splice (ls.drop 4); pure ((ls.take 4 ++ s).map tokens)) := by
   unfold Tucan.molfile_v3000_reader._tokenize_lines
-  simp only []
-  rw [concat_lines_with_dash_ok env fuel ls hf]
-  cases splice ls with
+  simp only [slice_take_4, slice_drop_4]
+  rw [concat_lines_with_dash_ok env fuel (ls.drop 4) hf]
+  cases splice (ls.drop 4) with
   | error e => simp
   | ok s =>
-    simp only [Py.ok_bind, pyIter_list, Py.pure_eq_ok]
-    rw [listComp_ok s _ (fun line => some (split (rstrip line) py!" ")) (fun _ _ => rfl)]
+    simp only [Py.ok_bind, pyIter_list, Py.pure_eq_ok, pyAdd_list]
+    rw [listComp_ok (ls.take 4 ++ s) _ (fun line => some (split (rstrip line) py!" ")) (fun _ _ => rfl)]
     simp only [Py.ok_bind]
     rw [listComp_ok _ _ (fun line => some (line.filter (· ≠ [])))]
-    · simp [tokens, Function.comp_def]
+    · have ht : tokens = fun l => (split (rstrip l) py!" ").filter (· ≠ []) := rfl
+      simp [ht, Function.comp_def]
     · intro line _
       rw [listComp_ok line _ (fun value => if value ≠ [] then some value else none)]
       · simp only [Py.ok_bind]
